@@ -47,6 +47,8 @@ SmokeTerms == {
   TRValue(5, TRStr(1, StartM \o <<A>> \o EndM)), TRValue(5, Obj(1, {"SF"})), TRValue(5, Obj(1, {"ST", "SV"})), TRValue(5, Obj(1, {"REG"})), TRValue(5, Obj(1, {"ER", "NILP"})),
   TRValue(5, TStruct(9, <<TInt(1, 1), TSafe(3, TStr(2, P(2)))>>, <<FALSE, TRUE>>)), TRValue(5, TPtrTo(10, TStruct(9, <<TInt(1, 1)>>, <<FALSE>>))),
   TUnsafe(6, TRValue(5, TStr(1, P(1)))), TSafe(6, TRValue(5, TInt(1, 4))),
+  \* redactables that end in a truncated sequence / in a line feed, alone
+  TRStr(1, StartM \o <<A>> \o EndM \o <<A, 226>>), TRBytes(1, <<A, 226, 128>>), TRStr(1, <<A, NL>>),
   \* channels and funcs (printed as pointers)
   TChan(1), TFunc(1), TSlice(9, <<TChan(1), TFunc(2)>>), TUnsafe(2, TChan(1)), TSafe(2, TFunc(1)), TStruct(9, <<TChan(1), TFunc(2)>>, <<FALSE, TRUE>>),
   \* reflect.Values obtained through an unexported field (not interfaceable)
@@ -70,7 +72,7 @@ SmokeTerms == {
 SmokeFormats == {Fv, Fs, Fd, FplusV, FsharpV, F5v, FT, Fq, Fw, LitF(<<A, 32>>, Fv) \o <<32, A>>, FZ, Fm8d,
                  <<110, 194, 186>> \o Fv, <<226, 130, 186>> \o Fd \o <<194, 186>>}
 SmokeRoots == SmokeTerms
-SmokeExpand(t) == {Case("Sprintf", f, <<t>>, <<>>) : f \in SmokeFormats}
+SmokeExpand(t) == {Case("Sprintf", f, <<t>>, <<>>) : f \in SmokeFormats} \cup {Case("Sprint", <<>>, <<t>>, <<>>)}
                   \cup {Case("Sprint", <<>>, <<t>>, <<>>), Case("Sprint", <<>>, <<TInt(90, 1), t, TStr(91, P(91)), t>>, <<>>),
                         Case("Sprintln", <<>>, <<t, TInt(90, 1), t>>, <<>>), Case("Sprintln", <<>>, <<>>, <<>>),
                         Case("Sprintf", Fv, <<t, t>>, <<>>), Case("Sprintf", <<A>>, <<t>>, <<>>), Case("Errorf", Fw \o Fw, <<t, t>>, <<>>),
@@ -100,12 +102,18 @@ Leaf(kind, i) == CASE kind = "ustr" -> UStr(i) [] kind = "uint" -> UInt(i) [] ki
                    [] kind = "safestr" -> SafeStr(i) [] kind = "safeint" -> SafeInt(i)
                    [] kind = "bool" -> TBool(i) [] kind = "float" -> TFloat(i) [] kind = "svsf" -> SVSF(i)
                    [] kind = "sstr" -> TSStr(i, P(i)) [] kind = "complex" -> TComplex(i) [] kind = "sfnum" -> SFNum(i)
+                   \* classified twice over: Safe(SafeValue), Unsafe(SafeValue), a registered type that is also a SafeValue;
+                   \* a registered Stringer handed over as a reflect.Value
+                   [] kind = "safesv" -> TSafe(i, SVStr(i + 1)) [] kind = "unsafesv" -> TUnsafe(i, SVStr(i + 1))
+                   [] kind = "regsv" -> TObj(i, {"REG", "SV", "ST"}, <<>>, <<>>, P(i), <<>>)
+                   [] kind = "rvregst" -> TRValue(i, TObj(i + 1, {"REG", "ST"}, <<>>, <<>>, P(i + 1), <<>>))
                    [] kind = "rstr" -> TRStr(i, P(i)) [] kind = "gs" -> TObj(i, {"GS", "ST"}, <<>>, <<>>, P(i), <<>>)
                    [] kind = "rv" -> TRValue(i, UStr(i + 1)) [] kind = "rvsv" -> TRValue(i, SVStr(i + 1))
                    [] kind = "rvsafe" -> TRValue(i, SafeStr(i + 1)) [] kind = "rvslice" -> TRValue(i, TSlice(i + 1, <<UStr(i + 2), SVObj(i + 3)>>))
 LeafKinds  == {"ustr", "uint", "sv", "svstr", "reg", "sm", "st", "er", "nil", "safestr", "safeint", "bool", "float", "svsf",
-               "rv", "rvsv", "rvsafe", "rvslice", "rstr", "gs", "sstr", "complex", "sfnum"}
-QLeafKinds == {"ustr", "uint", "sv", "svstr", "reg", "nil", "safestr", "st", "svsf", "rvsv", "rstr", "gs", "sstr", "complex", "sfnum"}
+               "rv", "rvsv", "rvsafe", "rvslice", "rstr", "gs", "sstr", "complex", "sfnum", "safesv", "unsafesv", "regsv", "rvregst"}
+QLeafKinds == {"ustr", "uint", "sv", "svstr", "reg", "nil", "safestr", "st", "svsf", "rvsv", "rstr", "gs", "sstr", "complex", "sfnum",
+               "safesv", "unsafesv", "regsv", "rvregst"}
 
 \* container shapes around two leaves a (ids 10..) and b (ids 20..); container ids 30..
 Shape(sh, a, b) ==
@@ -137,7 +145,7 @@ QClsFormats == {Fv, FplusV, FsharpV, F6v, Fd}
 
 \* ---- slice "cls" (C05, C02, C16): classification of leaves at top level and inside containers
 \* (a reflect.Value is modelled as an operand only, not as an element of a container: there fmt prints the struct)
-IsRV(kind) == kind \in {"rv", "rvsv", "rvsafe", "rvslice"}
+IsRV(kind) == kind \in {"rv", "rvsv", "rvsafe", "rvslice", "rvregst"}
 ClsRoots == {r \in [sh : IF Slice = "cls" THEN Shapes ELSE QShapes, ka : IF Slice = "cls" THEN LeafKinds ELSE QLeafKinds] :
                IsRV(r.ka) => r.sh \in {"top", "two"}}
 ClsExpand(r) ==
@@ -279,8 +287,9 @@ ErrOperand(kind, i) ==
     [] kind = "st"     -> StObj(i)
     [] kind = "erpan"  -> TObj(i, {"ER"}, <<>>, <<>>, <<>>, <<TStr(i + 1, P(i + 1))>>)
     [] kind = "struct" -> TStruct(i, <<UInt(i + 1), UStr(i + 2)>>, <<FALSE, TRUE>>)
-ErrKinds  == {"er", "erfm", "ersf", "ersm", "sfw", "safe", "unsafe", "ernil", "nil", "int", "str", "st", "erpan", "struct"}
-QErrKinds == {"er", "erfm", "ersf", "ersm", "sfw", "ernil", "safe", "unsafe", "nil", "int", "str", "st", "struct"}
+    [] kind = "stpan"  -> TObj(i, {"ST"}, <<>>, <<>>, <<>>, <<TStr(i + 1, P(i + 1))>>)      \* a Stringer whose String() panics
+ErrKinds  == {"er", "erfm", "ersf", "ersm", "sfw", "stpan", "safe", "unsafe", "ernil", "nil", "int", "str", "st", "erpan", "struct"}
+QErrKinds == {"er", "erfm", "ersf", "ersm", "sfw", "ernil", "erpan", "stpan", "safe", "unsafe", "nil", "int", "str", "st", "struct"}
 ErrRoots == LET ks == IF Slice = "errorf" THEN ErrKinds ELSE QErrKinds IN
             {<<>>} \cup {<<ErrOperand(k1, 10)>> : k1 \in ks} \cup {<<ErrOperand(k1, 10), ErrOperand(k2, 20)>> : k1 \in ks, k2 \in ks}
 \* (objects are named ints in the harness: '*' would read their handle as a width; kept out of star formats)
@@ -300,7 +309,8 @@ HookErr(kind, i) ==
     [] kind = "ernil" -> TObj(i, {"ER", "NILP"}, <<>>, <<>>, <<>>, <<>>)
     [] kind = "erpan" -> TObj(i, {"ER"}, <<>>, <<>>, <<>>, <<TStr(i + 1, P(i + 1))>>)
     [] kind = "st"    -> StObj(i)
-HookKinds == {"er", "erst", "erfm", "ersf", "ersm", "ergs", "ersv", "erreg", "ernil", "erpan", "st"}
+    [] kind = "stpanerr" -> TObj(i, {"ST"}, <<>>, <<>>, <<>>, <<ErObj(i + 5)>>)
+HookKinds == {"er", "erst", "erfm", "ersf", "ersm", "ergs", "ersv", "erreg", "ernil", "erpan", "st", "stpanerr"}
 HookPos(pos, e) ==
   CASE pos = "top"     -> <<e>>
     [] pos = "safe"    -> <<TSafe(40, e)>>
